@@ -36,16 +36,21 @@ def replay(chk, path):
     hbin = vlib.build_harness(rp.get("harness") or chk.harness, impl_dir, "asan", chk.wraps, lib=rp.get("lib") or chk.lib)
     text = "\n".join(ops) + "\n"
     im, rc, err = vlib.run_proc([hbin], text)
-    vlib.lake_build(["qdriver"])
-    mo, mrc, merr = vlib.run_model(rp.get("module") or chk.module, text)
+    # "module": null in the replay = implementation-vs-oracle stream (nomodel): no model transcript
+    module = rp["module"] if "module" in rp else chk.module
+    mo = None
+    if module:
+        vlib.lake_build(["qdriver"])
+        mo, mrc, merr = vlib.run_model(module, text)
     bad = False
     for i, op in enumerate(ops):
         a = im[i] if i < len(im) else "<missing>"
-        b = mo[i] if i < len(mo) else "<missing>"
+        b = a if mo is None else (mo[i] if i < len(mo) else "<missing>")
         j = chk.judge(op, a) if i < len(im) else "no result (crash)"
         flag = "  " if a == b and not j else "!!"
         bad |= flag == "!!"
-        print("%s %s\n     impl : %s\n     model: %s%s" % (flag, op[:160], a[:300], b[:300], ("\n     oracle: " + j) if j else ""))
+        print("%s %s\n     impl : %s\n     model: %s%s" % (flag, op[:160], a[:300], "<none: implementation-vs-oracle stream>" if mo is None else b[:300],
+                                                         ("\n     oracle: " + j) if j else ""))
     if rc != 0:
         print("harness rc=%d: %s" % (rc, vlib.sanitizer_summary(err)))
         bad = True
